@@ -202,7 +202,7 @@ func familyVerify(t *testing.T) {
 	rng := T.rng
 	synctest.Test(t, func(t *testing.T) {
 		defer guard()
-		nScen := T.size(40, 300)
+		nScen := T.size(40, 120)
 		for sc := 0; sc < nScen; sc++ {
 			R := 1000000
 			lowLimit := sc%8 == 7 // a low limit: refusals must leave no trace
